@@ -1,5 +1,40 @@
 import ZoektModel.Basic.Proto
+import ZoektModel.C36.Spec
 namespace ZoektModel.C36
-/-- stub: no model driver for C36 yet -/
-def main : IO Unit := ZoektModel.Proto.runLines (fun _ => ZoektModel.Proto.badCase "no model driver for C36")
+open ZoektModel ZoektModel.Proto
+
+def toStr (b : List UInt8) : Str := b.map (·.toNat)
+def showStr (s : Str) : String := bytesToHex (s.map UInt8.ofNat)
+
+/-! ops
+  `esc <chain> <payloadHex>`   impl = hex of what the real html/template wrote for the payload at a place of that chain
+                               model = hex of `chain.apply payload`; SPECFAIL when the implementation's text is not safe there
+  `occ <payloadHex,…>`          impl = hex of a sentinel-delimited piece of text cut out of a real page, which was rendered
+                               with the payload (sentinels included) in some data field; model = that same hex when it is the
+                               output of one of the modelled chains (else `unmodelled`); SPECFAIL when it is no such output
+                               or is unsafe at that chain's place
+-/
+def handle (line : String) : String :=
+  let (inp, impl) := splitCase line
+  match fields inp with
+  | ["esc", ch, p] =>
+    match Chain.ofName? ch, hexToBytes? p, hexToBytes? impl with
+    | some c, some payload, some out =>
+      let model := showStr (c.apply (toStr payload))
+      if checkP c (toStr out) then answer model else specFail model ("unsafe-in-" ++ c.name)
+    | _, _, _ => badCase "esc fields"
+  | ["occ", ps] =>
+    match (ps.splitOn ",").mapM hexToBytes?, hexToBytes? impl with
+    | some payloads, some occ =>
+      let cands := payloads.map toStr
+      if occurrenceOkAny cands (toStr occ) then answer impl
+      else
+        -- not the output of any modelled chain, or such an output but unsafe (cannot happen if the theorems hold)
+        match Chain.all.find? fun c => cands.any fun p => c.apply p == toStr occ with
+        | some c => specFail impl ("unsafe-in-" ++ c.name)
+        | none => specFail "unmodelled" "value-not-escaped-by-a-modelled-chain"
+    | _, _ => badCase "occ fields"
+  | _ => badCase "op"
+
+def main : IO Unit := runLines handle
 end ZoektModel.C36
